@@ -1,7 +1,7 @@
 """C19 - frames expose their arguments consistently as a mapping."""
 from hypothesis import strategies as st
 
-from pbt import canon, spec_table, strategies as S
+from pbt import canon, optchild, spec_table, strategies as S
 from pbt.lib import call, commands, frame, header, make_method, make_properties, \
     method_class
 from pbt.runner import Component, Violation
@@ -126,7 +126,16 @@ ARBITRARY = st.one_of(st.none(), st.integers(-5, 2**70), st.text(max_size=5),
                       st.lists(st.integers(0, 3), max_size=3),
                       st.dictionaries(st.text(max_size=2), st.integers(0, 3),
                                       max_size=2),
-                      st.binary(max_size=4))
+                      st.binary(max_size=4),
+                      # values of types the wire never carries: the mapping protocol
+                      # must hand back whatever the attribute holds
+                      st.lists(st.one_of(st.integers(0, 3), st.text(max_size=2)),
+                               max_size=3).map(tuple),
+                      st.just(()), st.tuples(st.text(max_size=3)),
+                      S.struct_times(), S.datetimes(), S.table_decimals(),
+                      st.binary(max_size=4).map(bytearray),
+                      st.frozensets(st.integers(0, 3), max_size=2).map(set),
+                      st.just(canon.Opaque()))
 
 
 def cases_strategy(tier):
@@ -172,6 +181,10 @@ def sweep(tier, shard, nshards):
         if m.fields:
             out.append({'cls': m.dotted, 'args': args, 'roundtrip': False,
                         'set': {f.name: [i] for i, f in enumerate(m.fields)}})
+            out.append({'cls': m.dotted, 'args': args, 'roundtrip': False,
+                        'set': {f.name: ('t%d' % i, i) for i, f in enumerate(m.fields)}})
+            out.append({'cls': m.dotted, 'args': args, 'roundtrip': False,
+                        'set': {f.name: () for f in m.fields}})
     import datetime
     pv = {n: ('p%d' % i if w == 'shortstr' else 1 + i % 2 if w == 'octet' else
               {'h': i} if w == 'table' else
@@ -187,6 +200,10 @@ COMPONENTS = [
               classes=classes, shards={'quick': 4, 'thorough': 4},
               describe='every class with pairwise distinct values, before/after '
                        'round trip and with post-construction setattr'),
+    Component('interpreter-flags', optchild.flagged('C19', check),
+              bulk=optchild.make_bulk('C19', ['all-classes'], flags=('-O',)),
+              distinct_by_construction=True, shards={'quick': 1, 'thorough': 1},
+              describe='the all-classes sweep in a child interpreter started with -O'),
     Component('random', check, strategy=cases_strategy, nontrivial=nontrivial,
               classes=classes, budget={'quick': 13000, 'thorough': 650000},
               describe='random values, random setattr, optional round trip'),
